@@ -308,7 +308,7 @@ pub fn run_terms(ch: &mut Choices, verbose: bool) -> TermsReport {
     // mutation histories: hash / store a value, change it in place, compare with a fresh build
     let mutate_phase = ch.chance(1, 3);
     // concurrent callers under the cooperative scheduler (hooked build only)
-    let coop_phase = ch.chance(1, 40) && HOOKED;
+    let coop_phase = ch.chance(1, 12) && HOOKED;
     let coop_seed = ch.bits() as u64;
     let churn: u32 = if ch.chance(1, 12) { [200u32, 1500, 6000][ch.choose(3) as usize] } else { 0 };
     let rp = RealiseParams {
@@ -399,6 +399,30 @@ pub fn run_terms(ch: &mut Choices, verbose: bool) -> TermsReport {
                 add(descs_len_plus(m as usize), &dm, n, ch, &mut rstats, &mut log, &mut pool);
                 descs.push(dm);
             }
+        }
+        // ---- concurrent-caller runs also get a pair of twins wrapped in a long chain of unary /
+        //      ordered compounds: several threads are then DEEP inside Hash / PartialEq at once ----
+        if coop_phase {
+            let depth = [30usize, 70, 150][ch.choose(3) as usize];
+            let core = Desc::Set(S_CONJ, vec![Desc::Atom(A_WORD, "A".into()), Desc::Atom(A_WORD, "B".into()), Desc::Sym(Y_SIM, Box::new(Desc::Atom(A_WORD, "C".into())), Box::new(Desc::Atom(A_WORD, "D".into())))]);
+            let mut chain = core;
+            for level in 0..depth {
+                chain = match level % 3 {
+                    0 => Desc::Neg(Box::new(chain)),
+                    1 => Desc::Seq(Q_PRODUCT, vec![chain]),
+                    _ => Desc::Pair(P_INH, Box::new(chain), Box::new(Desc::Atom(A_WORD, "Z".into()))),
+                };
+            }
+            log.line(|| format!("D80 = a {depth}-level chain around (&&, A, B, <C <-> D>)"));
+            let chain_rp = RealiseParams { wrap: 0, text_routes: false, ..rp };
+            for r in 0..2 {
+                let term = realise(&chain, ch, &mut rstats, &chain_rp);
+                let rt = abstract_term(&term);
+                let (layout, _) = layout_of(&term);
+                log.d.u64(layout);
+                pool.push(Entry { label: format!("D80.r{r}"), desc: 80, term, r: rt, layout });
+            }
+            descs.push(chain);
         }
         // ---- mutation histories: a value that was already hashed / stored is changed in place
         //      through the public API, and must then behave exactly like a freshly built value of
@@ -738,7 +762,7 @@ pub fn run_terms(ch: &mut Choices, verbose: bool) -> TermsReport {
                 //      `Hash for Term` / `PartialEq for Term` (yield sites 4, 5) ----
                 if coop_phase && n >= 2 {
                     let t_n = 2 + (coop_seed % 3) as usize;
-                    let coop = crate::coop::Coop::new(t_n, coop_seed, [4u64, 16, 64][(coop_seed >> 8) as usize % 3]);
+                    let coop = crate::coop::Coop::new(t_n, coop_seed, [2u64, 8, 32, 128][(coop_seed >> 8) as usize % 4]);
                     let pool_ref = &pool;
                     let bodies: Vec<Box<dyn FnOnce() -> (Vec<[u64; 3]>, Vec<Vec<bool>>) + Send + '_>> = (0..t_n)
                         .map(|t| {
@@ -751,6 +775,17 @@ pub fn run_terms(ch: &mut Choices, verbose: bool) -> TermsReport {
                                     hashes[i] = hash3(&pool_ref[i].term, outer_key);
                                     for j in 0..n {
                                         eqs[i][j] = pool_ref[i].term == pool_ref[j].term;
+                                        // the same question on a short-lived copy: freed heap
+                                        // addresses are reused by the next copy (of another value)
+                                        if (i + j + t) % 3 == 0 {
+                                            let copy = pool_ref[(i + j) % n].term.clone();
+                                            let on_copy = copy == pool_ref[j].term;
+                                            drop(copy);
+                                            if on_copy != (pool_ref[(i + j) % n].r == pool_ref[j].r) {
+                                                // remembered as a disagreement on that pair
+                                                eqs[(i + j) % n][j] = on_copy;
+                                            }
+                                        }
                                     }
                                 }
                                 (hashes, eqs)
